@@ -124,7 +124,7 @@ CLAIMED = {
  "C20": C("PARTIAL. Proved: C20_second_close, C20_temp_errors (Serve survives any run of temporary errors, delays <= 1 s) on the lifecycle model; "
           "own_verdict_all_schedules and never_blocked_step on the chunked-delivery interleaving model for every schedule; pinned-tree "
           "counterexamples kept as regression witnesses. accept probe over outcome sequences, sched probe over forced delivery/Close/Shutdown orders "
-          "with goroutine-leak counting (thorough: under the race detector).",
+          "with goroutine-leak counting, connections stuck in an implicit-TLS handshake, and the whole harness replayed under Go's race detector (both tiers).",
           "DESIGN.md 7 C20", "Lean 4 proof of interleaving/lifecycle models + schedule-forcing differential probes (accept, sched)",
           "the Go memory model, scheduler fairness and kernel-blocked goroutines are not expressible in the model"),
 }
